@@ -10,3 +10,8 @@ chk("C20", "exploration",
     "Exhaustive enumeration: the complete int32 domain (2^32 values) for ITF-8 in both tiers, a stratified full product for LTF-8 (all nine length classes, boundaries, byte-pair sweeps in thorough) and all first bytes x available lengths 0..9 for decoding, each compared with an encoder/decoder written from CRAM v3 §2.3. For ITF-8 this is the whole quantifier domain; for LTF-8 it covers one representative per shift/mask in the code.",
     "Trusts refimpl/tf8.go (30 lines, from the specification) and Go slice bounds checking to expose over-reads (exact-capacity buffers).",
     "bounded-exhaustive enumeration (whole int32 domain) against a specification reference", "DESIGN.md §3 C20", "enum (E3)")
+
+chk("C14", "model_checking",
+    "Explicit-state BFS to a fixpoint over sequential operation histories on each provided cache (every transition executed on the real cache under the controlled scheduler, so a self-deadlock is detected exactly; Random's map order is an explorer choice), compared step by step with a list model of the documented policy; plus every interleaving of 2-3 goroutines x 1-2 operations on colliding bases, each complete call/return history checked for linearizability against the same model with porcupine.",
+    "Trusts the reference model in cmd/vconc/cachemodel.go (written from the package documentation and the bgzf.Cache interface comments), the scheduler's model of sync.RWMutex (validated by the litmus suite and by running the repository's tests against the instrumented build in pass-through mode), and data-race freedom between synchronisation operations (checked separately with -race). Bounds: bases {0,1,2}, capacities 1..3, <=3 goroutines, <=3 concurrent operations.",
+    "explicit-state BFS to fixpoint over real operations + exhaustive interleaving exploration (controlled scheduler) with porcupine linearizability checking", "DESIGN.md §3 C14", "vsched+vinst (E1) / xmc (E2)")
